@@ -78,7 +78,9 @@ def fmtToksArgs : List PExp → List Tok
 has a fractional part, a string of the fragment is no name fragment: both in braces) -/
 def fmtToksIdx : List PExp → List Tok
   | [] => []
-  | .var i :: es => .us :: .word i :: fmtToksIdx es
+  | .var i :: es =>
+    if i.toList.contains '_' then .us :: .lbrace :: .word i :: .rbrace :: fmtToksIdx es
+    else .us :: .word i :: fmtToksIdx es
   | .int v :: es => .us :: .int (String.ofList (natDigits v)) :: fmtToksIdx es
   | e :: es => .us :: .lbrace :: fmtToks e ++ .rbrace :: fmtToksIdx es
 def fmtToksAcc : List PExp → List Tok
@@ -111,13 +113,21 @@ def isFloatText (s : String) : Bool :=
 /-- a name the lexer reads as one word and the parser as a variable: `LETTER (LETTER | NUMBER)*`, no keyword -/
 def plainVar (n : String) : Bool := isPlainRun n.toList && !(isKeyword n)
 
+/-- a name the printer writes escaped (`\x_1`) and the lexer reads back as the one word `x_1`: base and segments
+without `$` / leading underscores / braces -/
+def escapedVar (n : String) : Bool := isEscapedRun n.toList && !(isKeyword n)
+
+/-- a variable name of the printable fragment: plain, or escaped -/
+def nameVar (n : String) : Bool := plainVar n || escapedVar n
+
 def printableIterVar : IterVar → Bool
   | .single n => plainVar n
   | .tuple ns => !ns.isEmpty && ns.all plainVar
 
 mutual
 /-- THE PRINTABLE FRAGMENT of expressions: trees the printer writes in a form the lexer model cuts into `fmtToks`
-and the parser model reads back as the same tree.  Outside: escaped names (inner `_`, `$`), float texts that are
+and the parser model reads back as the same tree.  Outside: names with `$` or leading underscores and escaped names
+with braces or name fragments (escaped names `\\x_1`, `\\total_a_2` are inside), float texts that are
 no float literal (`inf`, `NaN`, exponent forms), calls whose name has an underscore, opaque primitives (graphs,
 arrays other than integer arrays), strings with `"` or `\`, string indexes of compound variables that are name
 fragments (`_2`, written bare), unknown block kinds.  Since the repairs 10f80da / 7352fcb a `range(a, b, true)` call
@@ -131,7 +141,7 @@ def coreExp : PExp → Bool
     match intArrayOf d with
     | some ns => ns.all (fun v => decide (v ≤ i64Max)) && d == arrayText (ns.map (fun v => String.ofList (natDigits v)))
     | none => false
-  | .var n => plainVar n
+  | .var n => nameVar n
   | .cvar n idx => isPlainRun n.toList && !idx.isEmpty && coreIdx idx
   | .access n idx => isPlainRun n.toList && n != "not" && !idx.isEmpty && coreList idx
   | .call n args => n != "not" && isFunctionName n && coreList args
@@ -148,7 +158,7 @@ def coreIdx : List PExp → Bool
   | [] => true
   | .num t :: es => !(numIndexBare t) && coreExp (.num t) && coreIdx es
   | .str s :: es => !(strIndexBare s) && coreExp (.str s) && coreIdx es
-  | .var i :: es => isPlainRun i.toList && coreIdx es
+  | .var i :: es => (isPlainRun i.toList || escapedVar i) && coreIdx es
   | e :: es => coreExp e && coreIdx es
 def coreIters : List PExp → Bool
   | [] => true
